@@ -1213,6 +1213,9 @@ package sarama
 //@   ensures[advance] child.offset > old(child.offset) && forall k :: 0 <= k && k < len(msgs) ==> msgs[k].Offset < child.offset
 //@   ensures[fresh_messages] forall k :: 0 <= k && k < len(msgs) ==> msgs[k].chained == 0 && msgs[k].delivered == 0 && allocated(msgs[k]) && fresh(msgs[k])
 //@   ensures[unaltered] forall k :: 0 <= k && k < len(msgs) ==> exists j :: 0 <= j && j < len(batch.Records) && msgs[k].Offset == batch.FirstOffset + batch.Records[j].OffsetDelta && msgs[k].Key == batch.Records[j].Key && msgs[k].Value == batch.Records[j].Value && msgs[k].Headers == batch.Records[j].Headers && msgs[k].Topic == child.topic && msgs[k].Partition == child.partition
+//@   ensures[complete_when_deltas_increase] (forall a, b :: 0 <= a && a < b && b < len(batch.Records) ==> batch.Records[a].OffsetDelta < batch.Records[b].OffsetDelta) ==> forall j :: 0 <= j && j < len(batch.Records) && batch.FirstOffset + batch.Records[j].OffsetDelta >= old(child.offset) ==> exists k :: 0 <= k && k < len(msgs) && msgs[k].Offset == batch.FirstOffset + batch.Records[j].OffsetDelta
+//@   loop 0: invariant[complete +last_is_a_record] (forall a, b :: 0 <= a && a < b && b < len(batch.Records) ==> batch.Records[a].OffsetDelta < batch.Records[b].OffsetDelta) ==> forall j :: 0 <= j && j < $i && batch.FirstOffset + batch.Records[j].OffsetDelta >= old(child.offset) ==> exists k :: 0 <= k && k < len(messages) && messages[k].Offset == batch.FirstOffset + batch.Records[j].OffsetDelta
+//@   loop 0: invariant[last_is_a_record] len(messages) > 0 ==> exists j :: 0 <= j && j < $i && messages[len(messages)-1].Offset == batch.FirstOffset + batch.Records[j].OffsetDelta
 //@   loop 0: invariant child.offset >= old(child.offset) && child.offset < 4611686018427387904 + 4294967296 + 1
 //@   loop 0: invariant len(messages) > 0 ==> child.offset == messages[len(messages)-1].Offset + 1
 //@   loop 0: invariant len(messages) == 0 ==> child.offset == old(child.offset)
